@@ -6,15 +6,20 @@
 (*   <<"BEH", [prog, errs, warns, image, steps]>>                          *)
 (* prog = source lines [k, a, id]; errs / warns = what the diagnostic      *)
 (* counters of the composition hold at the end of the pass; image = the    *)
-(* emitted stream as <<load address, id of the source line the byte comes  *)
-(* from>>; steps = executions of Produce_Code.                             *)
+(* emitted stream as <<load address, byte = id of the source line it comes *)
+(* from>> - for DB VX the value the symbol table holds for VX; steps =     *)
+(* executions of Produce_Code.                                             *)
 (* AsCore_Gen.cfg / AsCore_Gen4.cfg: breadth first, EVERY program of up    *)
 (* to 3 / 4 source lines, invariants of AsCore_MC checked on the way.      *)
-(* AsCore_Sim.cfg: -simulate, longer programs (8 lines, 60 steps).         *)
+(* AsCore_GenS.cfg / AsCore_GenS4.cfg: the same over SymAlpha (statements  *)
+(* of the symbol table).  AsCore_GenM*.cfg: macro family.  AsCore_GenD.cfg:*)
+(* the Directed programs.  AsCore_Sim.cfg: -simulate, longer programs over *)
+(* both alphabets (8 lines, 60 steps).                                     *)
 (***************************************************************************)
 EXTENDS AsCore_MC, Json
 
-Outcome == [prog |-> prog, errs |-> s.d.err, warns |-> s.d.warn, image |-> gh.image, steps |-> l - 1]
+Outcome == [prog |-> prog, errs |-> s.d.err, warns |-> s.d.warn,
+            image |-> [i \in 1..Len(gh.image) |-> <<gh.image[i][1], gh.image[i][2]>>], steps |-> l - 1]
 GenNext == \/ Step /\ (mode' = "done" => PrintT(<<"BEH", ToJson(Outcome')>>))
            \/ (mode = "done" /\ UNCHANGED vars)
 =============================================================================
